@@ -1,7 +1,7 @@
 (* C17 - GeoCollection operations are exact filters and element-wise maps.  Pinned theorems only. *)
 From Coq Require Import ZArith List Bool Reals Lra.
 From Flocq Require Import Core BinarySingleNaN.
-Require Import GV.FloatBase GV.FloatLemmas GV.AngleM GV.GeonumM GV.CollM GV.OrderProofs GV.CollProofs GV.AngleProofs GV.NewProofs GV.CtorProofs GV.GeonumProofs GV.DistValue GV.SumProofs.
+Require Import GV.FloatBase GV.FloatLemmas GV.AngleM GV.GeonumM GV.CollM GV.OrderProofs GV.CollProofs GV.AngleProofs GV.NewProofs GV.CtorProofs GV.GeonumProofs GV.DistValue GV.SumProofs GV.TraitsM GV.TraitsProofs GV.BoundProofs GV.ClosureProofs GV.SumUpper GV.PiBounds GV.TrigProofs GV.DotValue GV.ProdProofs GV.DirProofs GV.FieldProofs GV.ConeProofs.
 Import ListNotations.
 Open Scope R_scope.
 
@@ -67,3 +67,24 @@ Print Assumptions C17_total_value.
 Theorem C17_rsum_def : rsum [] = 0 /\ (forall g t, rsum (g :: t) = R_ (mag g) + rsum t) /\ eps = / 9007199254740992.
 Proof. split; [reflexivity|]. split; [reflexivity|reflexivity]. Qed.
 Print Assumptions C17_rsum_def.
+
+(* the cone predicate: non-zero magnitude product and acosF(clamp(signed cosine)) <=_F half-angle *)
+Theorem C17_cone_pred_unfold : forall (L : libm) direction half g,
+  cone_pred L direction half g =
+    if feq (fmul (mag g) (mag direction)) zero then false
+    else fle (acosF L (fclamp (cone_signed_cos L direction g) (fneg one) one)) half.
+Proof. exact cone_pred_unfold. Qed.
+Print Assumptions C17_cone_pred_unfold.
+
+(* NUMERIC READING: the signed cosine fed to acos IS the cosine of the real direction difference between the member and
+   the axis (REAL pi), within 2.1 u + 2.01e-10, for any libm whose cos is accurate to u (magnitude product in
+   [2^-500, 2^500]) - so the selected members are those whose unsigned angle to the axis is at most the half-angle, up
+   to libm's acos and that tolerance *)
+Theorem C17_cone_signed_cos : forall (L : libm) (u : R) direction g, cos_acc L u -> u <= / 1000 ->
+  canonp (rem (ang g)) -> canonp (rem (ang direction)) -> (0 <= blade (ang g))%Z -> (0 <= blade (ang direction))%Z ->
+  fin (dot_value L g direction) -> fin (cone_signed_cos L direction g) ->
+  bpow radix2 (-500) <= R_ (mag g) * R_ (mag direction) <= bpow radix2 500 ->
+  Rabs (R_ (cone_signed_cos L direction g) - cos (dir (ang direction) - dir (ang g)))
+    <= 21 / 10 * u + 201 / 1000000000000.
+Proof. exact cone_signed_cos_value. Qed.
+Print Assumptions C17_cone_signed_cos.
